@@ -208,6 +208,23 @@ func runImplHist(h HistCase) (outs []Out, tbAns map[int]bool) {
 type entry struct {
 	config   Schema
 	inflight []int
+	stale    bool // a request under it has finished since the last moment nothing was in flight (= not "fresh")
+}
+
+// valid: a schema as validation admits it (exactly one kind, a global part only beside its local part, max >= 0).
+// The property speaks about such schemas only.
+func (s Schema) valid() bool {
+	kinds := 0
+	if s.Exempt {
+		kinds++
+	}
+	if s.Mi != nil {
+		kinds++
+	}
+	if s.Tb != nil {
+		kinds++
+	}
+	return kinds == 1 && (s.Gmi == nil || s.Mi != nil) && (s.Gtb == nil || s.Tb != nil) && (s.Mi == nil || *s.Mi >= 0)
 }
 
 type verdict struct {
@@ -218,7 +235,11 @@ type verdict struct {
 
 func toU32(x int32) uint32 { return uint32(x) }
 
+// judgeHist is the Go twin of KG.Spec.LocalLimiter.judge: the property as its text reads (see that file). Where the
+// text says nothing - negative max, several kinds or none, duplicate names, missing schema - nothing is demanded; a
+// refusal is judged only when slots are free AND no request has finished since nothing was in flight.
 func judgeHist(h HistCase, outs []Out) *verdict {
+	tainted := map[string]map[string]bool{}
 	last := map[string][]Schema{}
 	entries := map[string]map[string]*entry{}
 	type sreq struct {
@@ -247,6 +268,26 @@ func judgeHist(h HistCase, outs []Out) *verdict {
 			}
 			es := ent(op.C)
 			in := map[string]bool{}
+			if tainted[op.C] == nil {
+				tainted[op.C] = map[string]bool{}
+			}
+			count, invalid := map[string]int{}, map[string]bool{}
+			for _, s := range op.Schemas {
+				count[s.Name]++
+				if !s.valid() {
+					invalid[s.Name] = true
+				}
+			}
+			for n := range tainted[op.C] {
+				if count[n] == 0 {
+					delete(tainted[op.C], n)
+				}
+			}
+			for n, k := range count {
+				if k > 1 || invalid[n] {
+					tainted[op.C][n] = true
+				}
+			}
 			for _, s := range op.Schemas {
 				in[s.Name] = true
 				e := es[s.Name]
@@ -274,19 +315,19 @@ func judgeHist(h HistCase, outs []Out) *verdict {
 			if op.N != "" {
 				e = ent(op.C)[op.N]
 			}
+			judged := e != nil && !tainted[op.C][op.N] && e.config.valid()
 			switch {
-			case e == nil || e.config.guess() == "exempt":
+			case op.N == "" || (judged && e.config.guess() == "exempt"):
 				if !o.Ok {
-					return &verdict{k, "c05.refused-without-limit", fmt.Sprintf("op %d: request for (%q,%q) refused although no limit applies to it (limiter %s)", k, rig.UnHex(op.C), rig.UnHex(op.N), o.Desc)}
+					return &verdict{k, "c05.refused-without-limit", fmt.Sprintf("op %d: request for (%q,%q) refused although no limit applies to it (no schema name, or an exempt schema; limiter %s)", k, rig.UnHex(op.C), rig.UnHex(op.N), o.Desc)}
 				}
-			case e.config.guess() == "mi" && e.config.Mi != nil:
-				m := toU32(*e.config.Mi)
-				want := uint64(len(e.inflight)) < uint64(m)
-				if o.Ok && !want {
+			case judged && e.config.guess() == "mi" && e.config.Mi != nil:
+				m := int(*e.config.Mi) // valid: >= 0
+				if o.Ok && len(e.inflight) >= m {
 					return &verdict{k, "c05.over-admission", fmt.Sprintf("op %d: request for (%q,%q) admitted although %d requests admitted under this max-in-flight schema since it became one are unfinished and the limit is %d", k, rig.UnHex(op.C), rig.UnHex(op.N), len(e.inflight), m)}
 				}
-				if !o.Ok && want {
-					return &verdict{k, "c05.refused-with-free-slot", fmt.Sprintf("op %d: request for (%q,%q) refused although only %d of %d slots are in use (a slot leaked or another schema's load was counted)", k, rig.UnHex(op.C), rig.UnHex(op.N), len(e.inflight), m)}
+				if !o.Ok && len(e.inflight) < m && !e.stale {
+					return &verdict{k, "c05.refused-with-free-slot", fmt.Sprintf("op %d: request for (%q,%q) refused although only %d of %d slots are in use and no request under it has finished since none was in flight (a slot leaked or another schema's load was counted)", k, rig.UnHex(op.C), rig.UnHex(op.N), len(e.inflight), m)}
 				}
 			}
 			if _, dup := reqs[op.Id]; !dup {
@@ -307,6 +348,7 @@ func judgeHist(h HistCase, outs []Out) *verdict {
 						for i, id := range e.inflight {
 							if id == op.Of {
 								e.inflight = append(e.inflight[:i:i], e.inflight[i+1:]...)
+								e.stale = len(e.inflight) > 0
 								break
 							}
 						}
